@@ -36,7 +36,8 @@ class World(object):
         pend = self.pending
         self.where = ['fn']
         where = self.where
-        PROT = {'xml': XmlDocument, 'soap11': Soap11, 'soap12': Soap12, 'json': JsonDocument,
+        PROT = {'json_list': (lambda: JsonDocument(complex_as=list)),
+                'xml': XmlDocument, 'soap11': Soap11, 'soap12': Soap12, 'json': JsonDocument,
                 'yaml': YamlDocument, 'msgpack': MessagePackDocument, 'mprpc': MessagePackRpc, 'http': HttpRpc}
 
         class S(Service):
@@ -62,6 +63,11 @@ class World(object):
             if where[0] == 'retlis':
                 pend[0]()
         S.event_manager.add_listener('method_return_object', after_return)
+
+        def swap_fault(ctx):
+            if where[0] == 'swap':
+                ctx.out_error = Fault('Client.Swapped', 'swapped')
+        S.event_manager.add_listener('method_exception_object', swap_fault)
         outp = PROT[fam]()
         self.app = Application([S], 'tns', in_protocol=HttpRpc(), out_protocol=outp)
         self.wsgi = WsgiApplication(self.app)
@@ -194,6 +200,12 @@ def observe(fam, status, headers, body, esc, box, secret):
                 msg = kids['faultstring'].text
                 d = kids.get('detail')
             detail = pool.elt_to_dict(d) if d is not None and len(d) else None
+        elif fam == 'json_list':
+            doc = json.loads(body.decode('utf8'))
+            # positional: [faultcode, faultstring, faultactor, detail]
+            if not isinstance(doc, list) or len(doc) != 4:
+                raise ValueError('fault list of %s members' % (len(doc) if isinstance(doc, list) else type(doc).__name__))
+            code, msg, detail = doc[0], doc[1], doc[3]
         elif fam in ('json', 'yaml', 'msgpack', 'mprpc'):
             if fam == 'json':
                 doc = json.loads(body.decode('utf8'))
@@ -240,8 +252,12 @@ def run(ctx):
         w.where[0] = c['where']
         status, headers, body, esc = w.call(c['meth'])
         w.where[0] = 'fn'
+        if c['where'] == 'swap':
+            box = {'msg': 'swapped'}          # the fault the listener put in place
         obs = observe(c['where'][3:] if c['where'].startswith('sw_') else c['fam'], status, headers, body, esc, box, secret)
         case = dict(c)
+        if c['where'] == 'swap' and obs['msg'] == 'same':
+            obs['msg'] = 'swapped'
         if case['f']['kind'] == 'fault':
             case = json.loads(json.dumps(c)); case['f']['msg'] = 'same'
         recs.append({'case': case, 'obs': obs, 'raw': body[:400].decode('utf8', 'replace')})
